@@ -33,7 +33,7 @@ ORACLES = {
     "C12": {"not_reproducible", "zero_temperature_increase", "refinement_mismatch", "distribution_mismatch",
             "impossible_state_reached", "unexpected_exception"},
     "C17": {"heap_overflow", "bad_free", "heap_leak", "bad_state_value", "nonfinite_value", "rand_int_bad_bound", "rand_int_out_of_range",
-            "absurd_allocation", "unexpected_exception"},
+            "absurd_allocation"},      # a Python-level exception is C11's business, not a memory-safety violation
 }
 
 
@@ -196,6 +196,8 @@ class World(BaseWorld):
         mode = choose_weighted(rng, [("default", c["w_default_sched"]), ("named_range", 2), ("explicit", c["w_explicit"]),
                                      ("zeros", c["w_zero"]), ("empty", 0.4)])
         op["anneal_duration"] = rng.randint(1, 6)
+        if rng.random() < c.get("p_long", 0.05):
+            op["anneal_duration"] = rng.choice([None, 50, 200, None])      # None: argument omitted (default 1000)
         op["temperature_range"] = None
         if mode == "default":
             op["schedule"] = rng.choice(["linear", "geometric"])
@@ -237,6 +239,19 @@ class World(BaseWorld):
         else:
             op["initial_state"] = None
         op["in_order"] = rng.random() < 0.5
+        omit = []
+        if op["in_order"] and rng.random() < 0.2:
+            omit.append("in_order")
+        if op["num_anneals"] == 1 and rng.random() < 0.3:
+            omit.append("num_anneals")
+        if op.get("temperature_range") is None and rng.random() < 0.3:
+            omit.append("temperature_range")
+        if op["schedule"] == "geometric" and rng.random() < 0.5:
+            omit.append("schedule")
+        if op["initial_state"] is None and rng.random() < 0.3:
+            omit.append("initial_state")
+        if omit:
+            op["omit"] = omit
         op["seed"] = rng.choice([None, 0, 1, 2**31 - 1, rng.randrange(2**31), rng.randrange(1000)])
         op["clock"] = [rng.choice([0, 1, -1, 1700000000, 2**32 + 5, 2**31 - 1, rng.randrange(2**31)])]
         # which RNG fault
@@ -384,6 +399,12 @@ class World(BaseWorld):
                       initial_state=init, temperature_range=tuple(op["temperature_range"]) if op.get("temperature_range") else None,
                       schedule=op["schedule"] if isinstance(op["schedule"], str) else list(op["schedule"]),
                       in_order=op["in_order"], seed=op.get("seed"))
+        # arguments recorded as "omitted" are really left out, so the documented defaults are exercised
+        if op.get("anneal_duration") is None:
+            del kwargs["anneal_duration"]
+            self.probe("default_anneal_duration")
+        for name in op.get("omit", []):
+            kwargs.pop(name, None)
         exc = None
         res = None
         with warnings.catch_warnings(record=True) as wlist:
